@@ -31,6 +31,7 @@ RPKG = 'github.com/cloudwego/frugal/internal/reflect'
 JOBSETS['unit'] = {
     'jobs': {t: [
         {'id': 'unit/span-lemma', 'entry': RPKG + '.VerifSpanLemma', 'reach': ['kept', 'fresh'], 'cfg': {'sym_alloc': True}, 'tags': ['unit', 'C06']},
+        {'id': 'unit/bitset-lemma', 'entry': RPKG + '.VerifBitsetLemma', 'reach': ['set', 'unset'], 'tags': ['unit', 'C09']},
         {'id': 'unit/descmap', 'entry': RPKG + '.VerifDescMapProtocol', 'reach': ['end'], 'tags': ['unit', 'C08']},
         {'id': 'unit/decoder-malloc', 'entry': RPKG + '.VerifDecoderMalloc', 'reach': ['typed', 'large', 'small'], 'cfg': {'sym_alloc': True}, 'tags': ['unit', 'C06']},
     ] for t in ('quick', 'thorough')},
@@ -101,6 +102,24 @@ JOBSETS['legacy'] = {
     'wall': {'quick': 900, 'thorough': 3600},
 }
 
+DPKG = 'github.com/cloudwego/frugal/internal/defs'
+def _parse_jobs(tier):
+    jobs = []
+    ntypes = 9
+    for t in range(ntypes):
+        for mode in (1, 2, 3):
+            jobs.append({'id': 'parse/type%d/mode%d' % (t, mode), 'entry': DPKG + '.VerifParseType', 'reach': ['end'], 'cfg': {'params': {'type': t, 'mode': mode}}, 'tags': ['parse']})
+        for ln in ((0, 1, 2) if tier == 'quick' else (0, 1, 2, 3)):
+            if t in (0, 1, 2, 3, 6, 7) or ln <= 2:
+                jobs.append({'id': 'parse/type%d/len%d' % (t, ln), 'entry': DPKG + '.VerifParseType', 'reach': ['end'], 'cfg': {'params': {'type': t, 'mode': 0, 'len': ln}}, 'tags': ['parse']})
+    return jobs
+
+JOBSETS['parse'] = {
+    'jobs': {t: _parse_jobs(t) for t in ('quick', 'thorough')},
+    'cfg': {'quick': {'timeout_s': 600, 'solver_timeout_ms': 10000}, 'thorough': {'timeout_s': 3000, 'solver_timeout_ms': 30000}},
+    'wall': {'quick': 1800, 'thorough': 7200},
+}
+
 PROPS = {
     'C17': {'jobsets': ['legacy'], 'phases': [''], 'translator_validation': 2, 'also_labels': r'^(C13 |M-frozen)'},
     'C15': {'jobsets': ['depth'], 'phases': ['decode'], 'translator_validation': 4},
@@ -114,7 +133,7 @@ PROPS = {
     'C04': {'jobsets': ['codec'], 'phases': ['encode']},
     'C05': {'jobsets': ['bytes', 'mutmsg'], 'phases': ['decode']},
     'C08': {'jobsets': ['unit', 'codec', 'decmsg', 'hist'], 'phases': [], 'job_filter': r'unit/descmap|^codec/(Sc|Li_|Mp_s|Df|Uk|Ns|Tw)|^decmsg/|^hist/', 'also_labels': r'^(C08|M-released|deadlock)'},
-    'C09': {'jobsets': ['decmsg', 'hist', 'bytes', 'codec'], 'phases': [], 'job_filter': r'Rq|Hs|By_unk|ScA_|ScD_|Id(Lo|Mid|Hi)',
+    'C09': {'jobsets': ['unit', 'decmsg', 'hist', 'bytes', 'codec'], 'phases': [], 'job_filter': r'unit/bitset|Rq|Hs|By_unk|ScA_|ScD_|Id(Lo|Mid|Hi)',
             'also_labels': r'^(C03 a well-formed|C03 every transmitted|C05 DecodeObject succeeds|C02 bytes equal)'},
     'C10': {'jobsets': ['codec', 'decmsg'], 'phases': [], 'job_filter': r'Df|ScD_|LeafD|NsB',
             'also_labels': r'^(C01 round trip|C02 bytes equal|C04 EncodedSize|C03 every transmitted)'},
